@@ -2,13 +2,14 @@ import ElvisVerif.Lemmas.ShiftBlocks
 /-!
 # `process_segment` commutes with the shift map (C12)
 
-Composition of the six block lemmas.  The side conditions the blocks need are discharged from
-two hypotheses on the TCB the segment meets:
+Composition of the six block lemmas.  The side condition block 4 needs is discharged from one
+hypothesis on the TCB the segment meets:
 
 * `SynSentFresh` — in SYN-SENT nothing is acknowledged yet and only the SYN was sent
-  (an invariant of every TCB made by `open`, `Lemmas/ShiftRun.lean`);
-* a FIN is not processed before the connection left SYN-SENT / SYN-RECEIVED (`Late`): the one
-  exclusion of the theorem, see `notes/C12.md` (F-C12-2, the unset `SND.WL2`).
+  (an invariant of every TCB made by `open`, `Lemmas/ShiftInv.lean`).
+
+(Before the repair of F-C12-2 a second hypothesis excluded a FIN processed in SYN-SENT /
+SYN-RECEIVED, where `SND.WL2` held an absolute number; see `notes/C12.md`.)
 
 Results are compared up to `psNorm` (`ConnectionReset` ≃ `BlindReset`).
 -/
@@ -20,9 +21,6 @@ variable (ka kb : Seq)
     window not yet known -/
 def SynSentFresh (s : Tcb) : Prop :=
   s.state = .SynSent → s.snd.una = s.snd.iss ∧ s.snd.nxt = s.snd.iss + 1 ∧ s.snd.wnd = 0
-
-/-- past the handshake states in which `SND.WL2` is unset -/
-def Late (s : Tcb) : Prop := s.state ≠ .SynSent ∧ s.state ≠ .SynReceived
 
 theorem enqueueThen_state (s : Tcb) (hb : Hdr) (r : Option ProcessSegmentResult) (u : Tcb)
     (r' : Option ProcessSegmentResult)
@@ -45,7 +43,9 @@ theorem rstBlock_none (s u : Tcb) (seg : Hdr) (h : Tcb.rstBlock s seg = .ok (u, 
   unfold Tcb.rstBlock at h
   split at h
   · cases h; rfl
-  · split at h <;> first | (cases h; done) | (split at h <;> cases h)
+  · split at h <;> first
+      | (cases h; done)
+      | (split at h <;> first | (cases h; done) | (split at h <;> cases h))
 
 theorem synBlock_none (s u : Tcb) (seg : Hdr) (h : Tcb.synBlock s seg = .ok (u, none)) :
     u.state ≠ .SynSent ∧ (s.state ≠ .SynSent → u = s) := by
@@ -132,21 +132,13 @@ theorem ackBlock_state (s u : Tcb) (seg : Hdr) (r : Option ProcessSegmentResult)
       · rw [if_neg cf] at hk
         split at hk <;> (cases hk; exact Or.inl hv)
     case LastAck =>
-      dsimp only at h
-      split at h <;> (cases h; exact Or.inl rfl)
+      obtain ⟨v, r0, hv, hk⟩ := afterAck_inv _ _ _ _ _ h
+      split at hk
+      · cases hk; exact Or.inl hv
+      · split at hk <;> (cases hk; exact Or.inl hv)
     case TimeWait =>
-      rw [Tcb.enqueueThen_eq] at h
       cases h
-      exact Or.inl (Tcb.enqueueBuilt_frame _ _).2.2.2.2.1
-
-theorem ackBlock_late (s u : Tcb) (seg : Hdr) (r : Option ProcessSegmentResult)
-    (h : Tcb.ackBlock s seg = .ok (u, r)) (hl : Late s) : Late u := by
-  unfold Late at *
-  rcases ackBlock_state s u seg r h with e | ⟨e1, e2⟩ | ⟨e1, e2⟩ | ⟨e1, e2⟩
-  · rw [e]; exact hl
-  · exact absurd e1 hl.2
-  · rw [e2]; exact ⟨by decide, by decide⟩
-  · rw [e2]; exact ⟨by decide, by decide⟩
+      exact Or.inl rfl
 
 theorem bounded_one (a b : Seq) (h : modBounded a .Lt b .Leq (a + 1) = true) : b = a + 1 := by
   unfold modBounded at h
@@ -286,8 +278,7 @@ theorem processSegment_eq (s : Tcb) (segment : Segment) :
         fun s => Tcb.textBlock s segment.hdr segment.text (BitVec.ofNat 32 segment.text.length)).andThen
         fun s => Tcb.finBlock s segment.hdr (BitVec.ofNat 32 segment.text.length)) := rfl
 
-theorem shift_processSegment (s : Tcb) (seg : Segment) (hF : SynSentFresh s)
-    (hfin : seg.hdr.ctl.fin = true → Late s) :
+theorem shift_processSegment (s : Tcb) (seg : Segment) (hF : SynSentFresh s) :
     normM (Tcb.processSegment (s.shift ka kb) (seg.shift kb ka)) =
       normM (M.shift ka kb (Tcb.processSegment s seg)) := by
   rw [processSegment_eq, processSegment_eq]
@@ -311,18 +302,7 @@ theorem shift_processSegment (s : Tcb) (seg : Segment) (hF : SynSentFresh s)
     · intro u hu
       obtain ⟨v, _, hsy⟩ := andThen_inv _ _ _ hu
       exact congrArg normB (shift_textBlock ka kb u seg.hdr seg.text _ (synBlock_none v u seg.hdr hsy).1)
-  · intro u hu
-    refine congrArg normB (shift_finBlock ka kb u seg.hdr _ (fun hf => ?_))
-    have hl := hfin hf
-    obtain ⟨v4, h4, ht⟩ := andThen_inv _ _ _ hu
-    obtain ⟨v3, h3, hsy⟩ := andThen_inv _ _ _ h4
-    obtain ⟨v2, h2, hr⟩ := andThen_inv _ _ _ h3
-    obtain ⟨v1, h1, ha⟩ := andThen_inv _ _ _ h2
-    have e1 := seqCheck_none _ _ _ _ h1; subst e1
-    have e2 := rstBlock_none _ _ _ hr; subst e2
-    have l2 : Late v3 := ackBlock_late _ _ _ _ ha hl
-    have e3 := (synBlock_none _ _ _ hsy).2 l2.1; subst e3
-    rw [textBlock_state _ _ _ _ _ _ ht]
-    exact l2.2
+  · intro u _
+    exact congrArg normB (shift_finBlock ka kb u seg.hdr _)
 
 end Elvis.Tcp
